@@ -319,7 +319,7 @@ Qed.
 Lemma patch_apply_ok : forall tbl l (m : mstate) sn,
   tbl_ok tbl -> List.length (m_bits m) = List.length (d_actions (m_desc m)) ->
   patch_valid (List.length (d_actions (m_desc m))) l = true ->
-  exists m' sn', patch_apply tbl l m sn = Ok (inr (m', sn'))
+  exists m' sn', patch_apply tbl l m sn = Ok (Some (m', sn'))
     /\ m_desc m' = m_desc m /\ m_id m' = m_id m /\ List.length (m_bits m') = List.length (d_actions (m_desc m')).
 Proof.
   intros tbl l. induction l as [|[k v] l IH]; intros m sn Ht Hl Hv; simpl.
@@ -338,6 +338,261 @@ Proof.
       * rewrite Hd1. exact Hv.
       * exists m2, sn2. split; [exact H2|]. rewrite Hd2, Hi2, Hd1, Hi1. repeat split; auto. rewrite <- Hd1, <- Hd2. exact Hl2.
     + now apply IH.
+Qed.
+
+(* ------------------------------------------------------------------------------------------------ *)
+(** * Shape of every answer (no invariant needed)                                                    *)
+
+Definition is_error_response (r : response V) : Prop :=
+  r = error_response 400 \/ r = error_response 404 \/ r = error_response 405 \/ r = error_response 415.
+Definition is_ok_response (r : response V) : Prop :=
+  rs_status r = 200 /\
+  match rs_ctype r, rs_body r with
+  | CtJson, BErr => False
+  | CtJson, BText _ => False
+  | CtJson, _ => True                 (* a value handed to the JSON marshaller *)
+  | CtToml, BText _ => True           (* the stored bytes *)
+  | CtCsv, BText _ => True
+  | _, _ => False
+  end.
+
+Ltac inv_ok H := inversion H; subst; try clear H.
+Ltac break_in H :=
+  repeat match type of H with
+         | context[match ?x with _ => _ end] => destruct x eqn:?; try discriminate
+         end.
+
+Ltac shape_tac H :=
+  unfold respond, fail, res_bind, need_name in H; break_in H; inv_ok H;
+  first [ right; split; [reflexivity | simpl; exact I]
+        | left; unfold is_error_response; auto 6 ].
+
+Lemma handle_shape : forall (s : state) (r : request) resp s',
+  handle s r = Ok (resp, s') -> is_error_response resp \/ is_ok_response resp.
+Proof.
+  intros s r resp s' H. unfold handle in H.
+  destruct (rq_route r); destruct (rq_meth r);
+    try solve [unfold fail in H; inv_ok H; left; unfold is_error_response; auto 6].
+  - unfold get_scenario in H. shape_tac H.
+  - unfold post_scenario in H. shape_tac H.
+  - unfold get_solutions in H. shape_tac H.
+  - unfold post_solutions in H. shape_tac H.
+  - unfold get_solution in H. shape_tac H.
+  - unfold get_model in H. shape_tac H.
+  - unfold patch_model in H. shape_tac H.
+  - unfold get_applicable in H. shape_tac H.
+  - unfold get_active in H. shape_tac H.
+  - unfold put_active in H. shape_tac H.
+  - unfold get_subcatchment in H. shape_tac H.
+  - unfold put_subcatchment in H. shape_tac H.
+Qed.
+
+(* ------------------------------------------------------------------------------------------------ *)
+(** * Every handler returns, keeps the invariant, and leaves the state alone unless it answers 200   *)
+
+Definition spec (s : state) (o : outcome) : Prop :=
+  exists resp s', o = Ok (resp, s') /\ Inv s' /\ (rs_status resp <> 200 -> s' = s).
+Definition spec_read (s : state) (o : outcome) : Prop := exists resp, o = Ok (resp, s).
+
+Lemma spec_of_read : forall s o, Inv s -> spec_read s o -> spec s o.
+Proof. intros s o HI [resp ->]. exists resp, s. auto. Qed.
+
+Lemma spec_fail : forall s code, Inv s -> spec s (fail code s).
+Proof. intros s code HI. exists (error_response code), s. auto. Qed.
+
+Ltac use_inv HI :=
+  let HE := fresh "HE" in let HT := fresh "HT" in let HS := fresh "HS" in
+  destruct HI as [[HE | HE] [HT HS]];
+  [ destruct HE as (Et & En & Em & Esn & Ep & Est & Esb)
+  | destruct HE as (t0 & n0 & m0 & p0 & Et & En & Em & Ep & Esn & Eid & Elen) ].
+
+Lemma get_scenario_read : forall s, Inv s -> spec_read s (get_scenario s).
+Proof.
+  intros s HI. unfold get_scenario, spec_read, need_name, fail, respond. use_inv HI; rewrite Et; [eauto|].
+  rewrite En. simpl. eauto.
+Qed.
+Lemma get_model_read : forall s, Inv s -> spec_read s (get_model s).
+Proof.
+  intros s HI. unfold get_model, spec_read, need_name, fail, respond. use_inv HI; rewrite Esn; [eauto|].
+  rewrite En. simpl. eauto.
+Qed.
+Lemma get_active_read : forall s, Inv s -> spec_read s (get_active s).
+Proof.
+  intros s HI. unfold get_active, spec_read, need_name, fail, respond. use_inv HI; rewrite Esn; [eauto|].
+  rewrite En. simpl. eauto.
+Qed.
+Lemma get_applicable_read : forall s, Inv s -> spec_read s (get_applicable s).
+Proof.
+  intros s HI. unfold get_applicable, spec_read, need_name, fail, respond. use_inv HI; rewrite Esn; [eauto|].
+  rewrite En. simpl. eauto.
+Qed.
+Lemma get_subcatchment_read : forall s id, Inv s -> spec_read s (get_subcatchment s id).
+Proof.
+  intros s id HI. unfold get_subcatchment, spec_read, need_name, fail, respond. use_inv HI; rewrite Esn; [eauto|].
+  destruct id as [pu|]; [|eauto]. destruct (negb (model_contains (snapshot_of m0) pu)); [eauto|].
+  rewrite En. simpl. eauto.
+Qed.
+Lemma get_solutions_read : forall s, Inv s -> spec_read s (get_solutions s).
+Proof.
+  intros s HI. unfold get_solutions, spec_read, need_name, fail, respond. use_inv HI; rewrite Et; [eauto|].
+  destruct (st_soltext s); [|eauto]. rewrite En. simpl. eauto.
+Qed.
+
+Lemma Loaded_with_model : forall (s : state) (m m' : mstate),
+  Loaded s -> st_model s = Some m -> m_id m' = m_id m -> m_desc m' = m_desc m ->
+  List.length (m_bits m') = List.length (d_actions (m_desc m')) ->
+  Loaded (with_model s m' (snapshot_of m')).
+Proof.
+  intros s m m' (t0 & n0 & m0 & p0 & Et & En & Em & Ep & Esn & Eid & Elen) Hm Hid Hd Hl.
+  rewrite Em in Hm. inversion Hm; subst m0.
+  exists t0, n0, m', p0. unfold with_model; simpl. repeat split; auto. congruence.
+Qed.
+
+Lemma Inv_with_model : forall (s : state) (m m' : mstate),
+  Inv s -> Loaded s -> st_model s = Some m -> m_id m' = m_id m -> m_desc m' = m_desc m ->
+  List.length (m_bits m') = List.length (d_actions (m_desc m')) ->
+  Inv (with_model s m' (snapshot_of m')).
+Proof.
+  intros s m m' [_ [HT HS]] HL Hm Hid Hd Hl. split; [right; eapply Loaded_with_model; eauto|].
+  unfold with_model; simpl. split; assumption.
+Qed.
+
+Lemma post_scenario_spec : forall s r, Inv s -> wf_request r = true -> spec s (post_scenario s r).
+Proof.
+  intros s r HI Hwf. unfold post_scenario.
+  destruct (rq_ctype r); try (now apply spec_fail).
+  unfold wf_request in Hwf. apply andb_true_iff in Hwf. destruct Hwf as [Hwf Hj]. apply andb_true_iff in Hwf. destruct Hwf as [Hc Ht].
+  destruct (rq_toml r) as [|name mv|]; try (now apply spec_fail); [|simpl in Ht; discriminate].
+  destruct mv as [| | |d|]; try (now apply spec_fail); [|simpl in Ht; discriminate].
+  assert (HT : tbl_ok (st_soltable s)) by (destruct HI as [_ [HT _]]; exact HT).
+  match goal with |- context[derive _ ?m0] => destruct (derive_ok (st_soltable s) m0 HT) as [m1 [Hm1 [Hd1 [Hi1 Hb1]]]]; rewrite Hm1 end.
+  simpl. eexists _, _. split; [reflexivity|]. split; [|intro H; simpl in H; congruence].
+  destruct HI as [_ [HT' HS]]. split; [|split; simpl; assumption].
+  right. exists (rq_raw r), name, m1, []. simpl. repeat split; auto.
+  rewrite Hb1, Hd1. simpl. unfold all_false. apply repeat_length.
+Qed.
+
+Lemma patch_model_spec : forall s r, Inv s -> wf_request r = true -> spec s (patch_model s r).
+Proof.
+  intros s r HI Hwf. unfold patch_model.
+  pose proof HI as HI0. use_inv HI; rewrite Esn; [now apply spec_fail|].
+  destruct (rq_ctype r); try (now apply spec_fail).
+  unfold wf_request in Hwf. apply andb_true_iff in Hwf. destruct Hwf as [_ Hj].
+  destruct (rq_json r) as [|l|]; [now apply spec_fail| |simpl in Hj; discriminate].
+  rewrite Em.
+  destruct (patch_valid (List.length (d_actions (m_desc m0))) l) eqn:Hv; simpl; [|now apply spec_fail].
+  match goal with |- context[patch_apply _ l ?mj ?sn] =>
+    destruct (patch_apply_ok (st_soltable s) l mj sn HT Elen Hv) as [m2 [sn2 [H2 [Hd2 [Hi2 Hl2]]]]]; rewrite H2 end.
+  simpl. destruct (derive_ok (st_soltable s) m2 HT) as [m3 [Hm3 [Hd3 [Hi3 Hb3]]]]. rewrite Hm3. simpl.
+  eexists _, _. split; [reflexivity|]. split; [|intro H; simpl in H; congruence].
+  assert (HL : Loaded s) by (exists t0, n0, m0, p0; repeat split; auto).
+  apply (Inv_with_model s m0 m3 HI0 HL Em).
+  - simpl in *. congruence.
+  - simpl in *. congruence.
+  - rewrite Hb3, Hd3. exact Hl2.
+Qed.
+
+Lemma put_active_spec : forall s r, Inv s -> wf_request r = true -> spec s (put_active s r).
+Proof.
+  intros s r HI Hwf. unfold put_active.
+  pose proof HI as HI0. use_inv HI; rewrite Esn; [now apply spec_fail|].
+  destruct (rq_ctype r); try (now apply spec_fail).
+  unfold wf_request in Hwf. apply andb_true_iff in Hwf. destruct Hwf as [Hwf _]. apply andb_true_iff in Hwf. destruct Hwf as [Hc _].
+  destruct (rq_csv r) as [|t|]; [now apply spec_fail| |simpl in Hc; discriminate].
+  simpl in Hc. destruct (table_wf_rows t Hc) as [Hcol Hrows].
+  unfold actions_table_ok, header_at.
+  destruct (nth_error (t_header t) 0) eqn:E0; [|apply nth_error_None in E0; unfold col_size in Hcol; lia].
+  simpl. destruct (negb (String.eqb s0 "SubCatchment")); simpl; [now apply spec_fail|].
+  destruct (forallb row_ok (t_rows t)) eqn:Hrow; simpl; [|now apply spec_fail].
+  rewrite Em.
+  destruct (process_rows_ok (d_actions (m_desc m0)) (t_header t) (t_rows t) (m_bits m0)) as [bits [Hb Hbl]]; auto.
+  { intro Hn. rewrite Hn in E0. discriminate. }
+  rewrite Hb. simpl.
+  match goal with |- context[derive _ ?mm] => destruct (derive_ok (st_soltable s) mm HT) as [m1 [Hm1 [Hd1 [Hi1 Hb1]]]]; rewrite Hm1 end.
+  simpl. eexists _, _. split; [reflexivity|]. split; [|intro H; simpl in H; congruence].
+  assert (HL : Loaded s) by (exists t0, n0, m0, p0; repeat split; auto).
+  apply (Inv_with_model s m0 m1 HI0 HL Em); [exact Hi1|exact Hd1|].
+  rewrite Hb1, Hd1. simpl. lia.
+Qed.
+
+Lemma put_subcatchment_spec : forall s id r, Inv s -> wf_request r = true -> spec s (put_subcatchment s id r).
+Proof.
+  intros s id r HI Hwf. unfold put_subcatchment.
+  pose proof HI as HI0. use_inv HI; rewrite Esn; [now apply spec_fail|].
+  destruct id as [pu|]; [|now apply spec_fail].
+  destruct (negb (model_contains (snapshot_of m0) pu)); [now apply spec_fail|].
+  unfold need_name. rewrite En. simpl.
+  unfold wf_request in Hwf. apply andb_true_iff in Hwf. destruct Hwf as [_ Hj].
+  destruct (rq_json r) as [|l|]; [now apply spec_fail| |simpl in Hj; discriminate].
+  destruct (negb (syntax_ok l)); [now apply spec_fail|].
+  rewrite Em.
+  destruct (negb (supported (d_actions (m_desc m0)) pu l)); [now apply spec_fail|].
+  match goal with |- context[derive _ ?mm] => destruct (derive_ok (st_soltable s) mm HT) as [m1 [Hm1 [Hd1 [Hi1 Hb1]]]]; rewrite Hm1 end.
+  simpl. eexists _, _. split; [reflexivity|]. split; [|intro H; simpl in H; congruence].
+  assert (HL : Loaded s) by (exists t0, n0, m0, p0; repeat split; auto).
+  apply (Inv_with_model s m0 m1 HI0 HL Em); [exact Hi1|exact Hd1|].
+  rewrite Hb1, Hd1. simpl. rewrite update_sub_length. exact Elen.
+Qed.
+
+Lemma post_solutions_spec : forall s r, Inv s -> wf_request r = true -> spec s (post_solutions s r).
+Proof.
+  intros s r HI Hwf. unfold post_solutions.
+  pose proof HI as HI0. use_inv HI; rewrite Et; [now apply spec_fail|].
+  destruct (rq_ctype r); try (now apply spec_fail).
+  unfold wf_request in Hwf. apply andb_true_iff in Hwf. destruct Hwf as [Hwf _]. apply andb_true_iff in Hwf. destruct Hwf as [Hc _].
+  destruct (rq_csv r) as [|t|]; [now apply spec_fail| |simpl in Hc; discriminate].
+  simpl in Hc.
+  destruct (summary_table_ok_total t Hc) as [ok Hok]. rewrite Hok. simpl.
+  destruct ok; simpl; [|now apply spec_fail].
+  rewrite Em.
+  destruct (verify_summary_total (m_desc m0) t Hc) as [same Hsame]. rewrite Hsame. simpl.
+  destruct same; simpl; [|now apply spec_fail].
+  unfold need_name. rewrite En. simpl.
+  eexists _, _. split; [reflexivity|]. split; [|intro H; simpl in H; congruence].
+  split; [right; exists t0, n0, m0, []; simpl; rewrite Ep; simpl; repeat split; auto|].
+  simpl. split.
+  - intros t' Ht'. inversion Ht'; subst. split; [exact Hc|]. now apply summary_table_ok_true.
+  - split; discriminate.
+Qed.
+
+Lemma get_solution_spec : forall s label, Inv s -> spec s (get_solution s label).
+Proof.
+  intros s label HI. unfold get_solution.
+  pose proof HI as HI0. use_inv HI; rewrite En; [now apply spec_fail|].
+  destruct (st_soltable s) as [t|] eqn:Etbl; [|now apply spec_fail].
+  destruct (HT t eq_refl) as [Hwf Hcol]. destruct (table_wf_rows t Hwf) as [_ Hrows].
+  destruct (label_row_total label (t_rows t)) as [o [Ho Hin]].
+  { eapply Forall_impl; [|exact Hrows]. cbv beta. intros a Ha. rewrite Ha. lia. }
+  rewrite Ho. simpl. destruct o as [row|]; [|now apply spec_fail].
+  rewrite Ep, Em.
+  destruct (String.eqb label "As-Is"); [apply spec_of_read; [exact HI0|eexists; reflexivity]|].
+  destruct (pool_find p0 label); [apply spec_of_read; [exact HI0|eexists; reflexivity]|].
+  destruct (Nat.ltb (col_size t) 2) eqn:L; [apply Nat.ltb_lt in L; lia|].
+  assert (Hrl : List.length row = col_size t).
+  { rewrite Forall_forall in Hrows. apply Hrows. now apply Hin. }
+  destruct (nth_error row (col_size t - 2)) eqn:E1; [|apply nth_error_None in E1; lia].
+  destruct (nth_error row (col_size t - 1)) eqn:E2; [|apply nth_error_None in E2; lia].
+  eexists _, _. split; [reflexivity|]. split; [|intro H; simpl in H; congruence].
+  split; [right; eexists t0, n0, m0, _; simpl; repeat split; eauto|].
+  simpl. split; assumption.
+Qed.
+
+Lemma handle_spec : forall s r, Inv s -> wf_request r = true -> spec s (handle s r).
+Proof.
+  intros s r HI Hwf. unfold handle.
+  destruct (rq_route r); destruct (rq_meth r); try (now apply spec_fail).
+  - apply spec_of_read; [exact HI|now apply get_scenario_read].
+  - now apply post_scenario_spec.
+  - apply spec_of_read; [exact HI|now apply get_solutions_read].
+  - now apply post_solutions_spec.
+  - now apply get_solution_spec.
+  - apply spec_of_read; [exact HI|now apply get_model_read].
+  - now apply patch_model_spec.
+  - apply spec_of_read; [exact HI|now apply get_applicable_read].
+  - apply spec_of_read; [exact HI|now apply get_active_read].
+  - now apply put_active_spec.
+  - apply spec_of_read; [exact HI|now apply get_subcatchment_read].
+  - now apply put_subcatchment_spec.
 Qed.
 
 End Proofs.
